@@ -354,7 +354,120 @@ fn build(tier: Tier) -> Vec<Scenario> {
             (cases, nontrivial, fail)
         }),
     ));
+    // whole jobs: two source replicas with their own watermarks -> group_by -> window -> sink,
+    // so that the watermark frontier of the window's block is part of the picture
+    for (size, slide) in [(2i64, 2i64), (3, 1)] {
+        for scripts in [
+            vec![vec![(0i64, 0i64), (1, 1), (0, 3)], vec![(0, 1), (0, 2), (1, 4)]],
+            vec![vec![(0, 2), (0, 5)], vec![]],
+            vec![vec![(0, 0)], vec![(0, 4), (0, 4), (1, 5)]],
+        ] {
+            out.push(job_scenario(size, slide, scripts, if tier == Tier::Quick { 1 } else { 2 }));
+        }
+    }
     out
+}
+
+/// scripts[replica] = (key, timestamp) in timestamp order; each element is followed by a
+/// watermark with its timestamp - 1 (so equal timestamps may follow).
+fn job_scenario(size: i64, slide: i64, scripts: Vec<Vec<(i64, i64)>>, bound: usize) -> Scenario {
+    use crate::rt::{Ev, Status};
+    use renoir::prelude::*;
+    let name = format!("C13/job/size{size}-slide{slide}/{:?}", scripts).replace(' ', "");
+    let descr = format!("2 source replicas emitting (key, ts) {:?} with watermarks -> group_by(key) -> event-time window size {size} slide {slide} -> collect; every schedule within the bound", scripts);
+    let sc2 = scripts.clone();
+    let body: crate::rt::Body = Arc::new(move || {
+        let env = crate::kit::Layout::Local(2).env(0);
+        let mut ss: Vec<Vec<El<(i64, i64)>>> = vec![];
+        for (r, s) in sc2.iter().enumerate() {
+            let mut v = vec![];
+            for (i, (k, t)) in s.iter().enumerate() {
+                v.push(StreamElement::Timestamped((*k, (r * 100 + i) as i64), *t));
+                if *t > 0 {
+                    v.push(StreamElement::Watermark(*t - 1));
+                }
+            }
+            ss.push(v);
+        }
+        // watermarks must increase strictly per replica
+        for v in ss.iter_mut() {
+            let mut last = -1i64;
+            v.retain(|e| match e {
+                StreamElement::Watermark(w) => {
+                    if *w > last {
+                        last = *w;
+                        true
+                    } else {
+                        false
+                    }
+                }
+                _ => true,
+            });
+        }
+        let out = env
+            .stream(crate::kit::ScriptSource::new(ss, renoir::Replication::Unlimited))
+            .batch_mode(renoir::BatchMode::fixed(1))
+            .group_by(|x: &(i64, i64)| x.0)
+            .window(EventTimeWindow::sliding(size, slide))
+            .map(|v: Vec<(i64, i64)>| v.into_iter().map(|x| x.1).collect::<Vec<i64>>())
+            .collect_vec();
+        env.execute_blocking();
+        crate::kit::log_sink("windows", 0, out.get());
+    });
+    let check: crate::explore::Check = Arc::new(move |r| {
+        if r.status != Status::Done {
+            return Err(Fail::new("c13-job-abnormal", format!("{:?}", r.status)));
+        }
+        let (n, rows) = crate::kit::sink_rows(&r.log, "windows");
+        if n != 1 {
+            return Err(Fail::new("c13-job-no-result", format!("sink published {n} times")));
+        }
+        // rows: [key, len, ids...]
+        let mut cover: std::collections::BTreeMap<i64, i64> = Default::default();
+        for row in rows.unwrap() {
+            let key = row[0];
+            let ids = &row[2..];
+            let mut tss = vec![];
+            for id in ids {
+                let (rep, i) = ((*id / 100) as usize, (*id % 100) as usize);
+                let (k, t) = scripts[rep][i];
+                if k != key {
+                    return Err(Fail::new("c13-job-mixed-keys", format!("result of key {key} holds element {id} of key {k}")));
+                }
+                tss.push(t);
+                *cover.entry(*id).or_insert(0) += 1;
+            }
+            if tss.iter().max().unwrap() - tss.iter().min().unwrap() >= size {
+                return Err(Fail::new("c13-job-window-too-wide", format!("result {:?} spans {:?}", ids, tss)));
+            }
+        }
+        let maxcov = (size + slide - 1) / slide;
+        for (rep, s) in scripts.iter().enumerate() {
+            for i in 0..s.len() {
+                let id = (rep * 100 + i) as i64;
+                let c = cover.get(&id).copied().unwrap_or(0);
+                if c == 0 {
+                    return Err(Fail::new("c13-job-lost-element", format!("element {id} {:?} is in no window result", s[i])));
+                }
+                if c > maxcov {
+                    return Err(Fail::new("c13-job-duplicated-element", format!("element {id} is in {c} results")));
+                }
+            }
+        }
+        Ok(crate::explore::hash_of(&r.log.iter().filter(|e| matches!(e, Ev::Note(..))).collect::<Vec<_>>()))
+    });
+    Scenario {
+        name,
+        descr,
+        params: crate::rt::EnvParams::default(),
+        body,
+        check,
+        bound,
+        orders: crate::props::common::ORDERS3.to_vec(),
+        max_execs: 0,
+        shards: 1,
+        nontrivial: true,
+    }
 }
 
 pub fn spec() -> PropSpec {
